@@ -942,7 +942,9 @@ def remove(
     conn = connect()
     conn.set_progress_handler(progress.update, 100000)
     try:
-        for rowid, id, _, _, _, _, version, *_ in find_lexicons(lexicon=lexicon):
+        # resolve the specifier before anything is deleted
+        lexicons = list(find_lexicons(lexicon=lexicon))
+        for rowid, id, _, _, _, _, version, *_ in lexicons:
             extensions = _find_all_extensions(rowid)
 
             with conn:
